@@ -137,6 +137,14 @@ func (s *httpsService) Handle(ctx context.Context, conn net.Conn) error {
 
 	tlsConn := tls.Server(conn, &tls.Config{
 		Certificates: []tls.Certificate{},
+		// called for every ClientHello that parses, before version or cipher
+		// negotiation can reject it: fingerprint here so that rejected
+		// handshakes are recorded with their fingerprint too
+		GetConfigForClient: func(hello *tls.ClientHelloInfo) (*tls.Config, error) {
+			ja3Digest = hello.JA3Digest()
+			serverName = hello.ServerName
+			return nil, nil
+		},
 		GetCertificate: func(hello *tls.ClientHelloInfo) (*tls.Certificate, error) {
 			ja3Digest = hello.JA3Digest()
 			serverName = hello.ServerName
